@@ -22,6 +22,7 @@ class E2EWorld(World):
     def __init__(self, proj: Project, pivot: str = "first"):
         super().__init__(proj)
         rt = self.rt
+        rt.max_steps = 150000
         rt.funcs["print"] = lambda ev, call: None
         rt.externals["!absent:cplex"] = True
         self.pivot = pivot
